@@ -152,7 +152,7 @@ def task_signature() -> List[Dict[str, Any]]:
     bad = []
     for op, u in used.items():
         ps = set(inspect.signature(getattr(U, op)).parameters)
-        rest = ps - u - own - set(UNSUPPORTED.get(op, {}))
+        rest = {p for p in ps - u - own - set(UNSUPPORTED.get(op, {})) if not p.startswith("_")}  # private torch plumbing (_stacklevel) has no effect on values
         if rest:
             bad.append((op, sorted(rest)))
     if bad:
